@@ -53,11 +53,11 @@ type trCase struct {
 }
 
 type trEnv struct {
-	srv   *httptest.Server
-	pki   *pki
-	mu    sync.Mutex
-	seen  []Ev // requests seen by the TLS server
-	addr  string
+	srv  *httptest.Server
+	pki  *pki
+	mu   sync.Mutex
+	seen []Ev // requests seen by the TLS server
+	addr string
 }
 
 func newTrEnv() *trEnv {
